@@ -32,10 +32,11 @@ def run(rep: core.Report):
     _r13e(rep)
     _r13f(rep, tus)
     _r13g(rep)
-    from rules import c13_abi, c13_bounds
+    from rules import c13_abi, c13_bounds, c13_stride
 
     c13_abi.run(rep, an, tus)
     c13_bounds.run(rep, an, tus)
+    c13_stride.run(rep, an, tus)
 
 
 # ---------------------------------------------------------------------------
@@ -546,4 +547,8 @@ def selftest():
     V.append(dict(name="get_dA returns the transposed Born element", kind="break", file=DDC, old="    return born[atom_i * 9 + cart_j * 3 + cart_i];", new="    return born[atom_i * 9 + cart_i * 3 + cart_j];", rule="R13g", expect="get_dA"))
     V.append(dict(name="get_dC loses one off-diagonal term", kind="break", file=DDC, old="                q[1] * (dielectric[1] + dielectric[3]) +\n                q[2] * (dielectric[2] + dielectric[6]));", new="                q[1] * (dielectric[1] + dielectric[3]) +\n                q[2] * (dielectric[2] + dielectric[2]));", rule="R13g", expect="get_dC"))
     V.append(dict(name="get_dA subscript reordered", kind="neutral", file=DDC, old="    return born[atom_i * 9 + cart_j * 3 + cart_i];", new="    return born[cart_i + 3 * cart_j + 9 * atom_i];"))
+    V.append(dict(name="thermal kernel row stride 2 instead of 3", kind="break", file="c/phonopy.c", old="            thermal_props[j] += tp[i * num_temp * 3 + j];", new="            thermal_props[j] += tp[i * num_temp * 2 + j];", rule="R13h", expect="tp["))
+    V.append(dict(name="frequency subscript with a minus", kind="break", file="c/phonopy.c", old="                f = freqs[i * num_bands + k];", new="                f = freqs[i * num_bands - k];", rule="R13h", expect="freqs["))
+    V.append(dict(name="tetrahedron dos coefficient stride", kind="break", file="c/phonopy.c", old="                        iw * coef[i * num_coef * num_band + m * num_band + k];", new="                        iw * coef[i * num_coef * num_band + m * num_coef + k];", rule="R13h", expect="coef["))
+    V.append(dict(name="subscript terms reordered", kind="neutral", file="c/phonopy.c", old="                f = freqs[i * num_bands + k];", new="                f = freqs[k + num_bands * i];"))
     return V
